@@ -401,3 +401,86 @@ def readout_ctor(u: Unit):
         u.oblige(p, "readout.start_time.valid", z3.And(NEW < T(0), to_real(f["_start_time"]) == NEW), {"new_start": NEW, "t0": T(0)}, READOUT_REPLAY)
         u.oblige(p, "readout.start_time.steps", z3.Implies(GI < N, to_real(sc.elem((GI,))) == z3.If(GI == 0, T(0) - NEW, T(GI) - T(GI - 1))), {"new_start": NEW}, READOUT_REPLAY, info={"small": [N, GI]})
     u.cover("readout.start_time.cover", ps, lambda p: p.kind == "return")
+
+
+# ---- the per-step reset is the same for every detector type (overrides of Detector.empty included) --------------------------
+EMPTY_REPLAY = lambda w: {"code": """
+import numpy as np
+from pyxel.detectors import CCD, CCDGeometry, CMOS, CMOSGeometry, MKID, MKIDGeometry, APD, APDGeometry, APDCharacteristics, Characteristics, Environment
+def mk(kind):
+    if kind == 'APD':
+        return APD(geometry=APDGeometry(row=2, col=3), environment=Environment(), characteristics=APDCharacteristics(roic_gain=0.8, avalanche_gain=2.0, pixel_reset_voltage=12.0))
+    cls, geo = {'CCD': (CCD, CCDGeometry), 'CMOS': (CMOS, CMOSGeometry), 'MKID': (MKID, MKIDGeometry)}[kind]
+    return cls(geometry=geo(row=2, col=3), environment=Environment(), characteristics=Characteristics())
+VIOLATED, DETAIL = False, 'every detector type keeps its pixel content over empty(reset=False) and clears everything else'
+for kind in ('CCD', 'CMOS', 'MKID', 'APD'):
+    for reset in (False, True):
+        d = mk(kind)
+        d.pixel.array = np.full((2, 3), 7.0); d.photon.array = np.full((2, 3), 1.0); d.signal.array = np.full((2, 3), 2.0); d.image.array = np.full((2, 3), 3, dtype=np.uint16)
+        d.charge.add_charge_array(np.full((2, 3), 4.0))
+        d.empty(reset)
+        pix = np.asarray(d.pixel.array)
+        ok = (np.array_equal(pix, np.zeros((2, 3))) if reset else np.array_equal(pix, np.full((2, 3), 7.0))) and d.photon._array is None and d.signal._array is None and d.image._array is None \
+            and float(np.abs(d.charge.array).max()) == 0.0
+        if not ok:
+            VIOLATED, DETAIL = True, f'{kind}.empty(reset={reset}): pixel {pix.ravel()[:2]}, photon set {d.photon._array is not None}, charge max {np.abs(d.charge.array).max()}'
+            break
+    if VIOLATED: break
+""", "expect": "empty(reset) clears photon, charge, signal, image and the scene; the pixel bucket is zeroed iff reset"}
+
+
+@unit("C02", "empty.all_detector_types")
+def empty_all_types(u: Unit):
+    """Detector.empty(reset) as every detector class resolves it (CCD, CMOS, APD inherit it; MKID overrides it): photon, signal
+    and image end empty, the charge array all zero without clusters, the scene is a fresh object; the pixel bucket is all zero
+    when reset and UNCHANGED when not reset — the premise of the non-destructive lifecycle for all detector types."""
+    kinds = {"CCD": "pyxel/detectors/ccd/ccd.py::CCD", "CMOS": "pyxel/detectors/cmos/cmos.py::CMOS", "MKID": "pyxel/detectors/mkid/mkid.py::MKID", "APD": "pyxel/detectors/apd/apd.py::APD"}
+    for kind, qual in kinds.items():
+        ci = u.cls(qual)
+        cfg = Cfg("real")
+        D.install(cfg)
+        hold = {}
+
+        def setup(ex, qual=qual, kind=kind):
+            det = D.mk_detector(ex, u, prior="arbitrary", cls_qual=qual)
+            st = ex.st
+            if kind == "MKID":
+                pci = u.world.cls("pyxel/data_structure/phase.py::Phase")
+                phase = ex.instantiate(pci, [ex.det_parts["geo"]], {}, Frame(None, pci.module))
+                st.cell(phase).fields["_array"] = D.maybe_frame(ex, "phase0")
+                st.cell(det).fields["_phase"] = phase
+            ex.hold = {"scene": st.cell(det).fields["_scene"], "pixel": D.frame_elem(st, D.bucket_array(st, ex.det_parts["pixel"])),
+                       "pixel_present": zb(z_not(D.is_empty_bucket(st, ex.det_parts["pixel"])))}
+            m = ex.find_method(ci, "empty")
+            ex.hold["method"] = m.qualname
+            return [det, VBool(z3.Bool("reset"))], {}
+        fi = ex_method = None
+        # resolve through the MRO of the real class
+        from pyvc.engine import Ex as _Ex
+        m = None
+        for c in u.world.mro(ci):
+            if "empty" in c.methods:
+                m = c.methods["empty"]
+                break
+        if m is None:
+            u.undecide(f"empty.resolves[{kind}]", qual, "no empty() found on the class")
+            continue
+        u.functions.setdefault(m.qualname, {"sha": m.sha, "file_sha": m.module.sha, "paths": 0, "obligations": 0, "role": "under contract"})
+        ps = u.paths(m, setup, cfg, label=f"{kind}.empty")
+        w = {"reset": z3.Bool("reset")}
+        for p in ps:
+            if p.kind != "return":
+                u.oblige(p, f"empty.no_raise[{kind}]", False, dict(w, exc=p.exc_name()), EMPTY_REPLAY)
+                continue
+            st, parts = p.st, p.ex.det_parts
+            for b in ("photon", "signal", "image"):
+                u.oblige(p, f"empty.cleared[{kind}.{b}]", zb(D.is_empty_bucket(st, parts[b])), w, EMPTY_REPLAY)
+            ch = st.cell(parts["charge"]).fields
+            u.oblige(p, f"empty.cleared[{kind}.charge]", z3.And(D.frame_elem(st, ch["_array"]) == 0, ch["_frame"].info["nrows"] == 0), w, EMPTY_REPLAY)
+            u.oblige(p, f"empty.scene_fresh[{kind}]", bool(st.cell(parts["det"]).fields["_scene"] is not p.ex.hold["scene"]), w, EMPTY_REPLAY)
+            pe = D.frame_elem(st, D.bucket_array(st, parts["pixel"]))
+            present = zb(z_not(D.is_empty_bucket(st, parts["pixel"])))
+            u.oblige(p, f"empty.pixel_zero_when_reset[{kind}]", z3.Implies(z3.Bool("reset"), z3.And(present, pe == 0)), w, EMPTY_REPLAY)
+            u.oblige(p, f"empty.pixel_kept_when_not_reset[{kind}]", z3.Implies(z3.Not(z3.Bool("reset")), z3.And(present == p.ex.hold["pixel_present"],
+                                                                                                      z3.Implies(present, pe == p.ex.hold["pixel"]))), w, EMPTY_REPLAY)
+        u.cover(f"empty.cover[{kind}]", ps, lambda p: p.kind == "return")
